@@ -30,8 +30,8 @@ m = {
  "setup_cmd": "./setup.sh",
  "hooks": {
   "guard": "verif",
-  "enable": "go test -tags verif,without_dashboard [-overlay build/overlay/overlay.json] -vet=off (harness module /verif/harness with replace github.com/tikv/pd => /repo)",
-  "baseline_off_cmd": "cd /repo && go test -vet=off -count=1 -timeout 25m ./...",
+  "enable": "go test -c -tags verif,without_dashboard -vet=off [-overlay build/overlay-<ID>/overlay.all.json] ./<pkg> in the harness module /verif/harness (replace github.com/tikv/pd => /repo); the overlay (only for C01 C02 C03 C05) is regenerated from /repo's working tree by harness/tools/mkoverlay and redirects time.Now/Since/Sleep of server/tso and server/election to a settable clock",
+  "baseline_off_cmd": "cd /repo && go test -mod=mod -vet=off -count=1 -timeout 25m ./...",
   "source_commits": hooks,
   "add_only": True,
  },
@@ -51,7 +51,7 @@ for pid in allp:
             "evidence_file": "evidence/%s.json" % pid,
             "replay_cmd_template": "./check %s --replay {path}" % pid,
             "engine": "pdverif",
-            "level_claimed": {"category": c["level"], "text": c["level_text"], "design_ref": "DESIGN.md §4 " + pid},
+            "level_claimed": {"category": c["level"], "text": c["level_text"], "design_ref": "DESIGN.md §4 " + pid + " (design) and §11.2 " + pid + " (as built)"},
             "level_note": c["level_note"],
             "technique": c["technique"],
         })
